@@ -53,163 +53,146 @@ def check(ctx, run):
                what="" if got == want else "a child that %s is recorded with %s failures" % ({"exit": "exits non-zero", "exit0": "exits 0", "signal": "is killed by a signal", "stopped": "is stopped", "other": "continues"}[kind], got))
 
     # ---------------- R2 / R3 -----------------------------------------------
-    loops = loop_blocks(sp)
-    # do-while: the loop condition block is the one with the back edge; body entry = successor on `true`
-    conds = [b for b in sp.blocks.values() if b["id"] in loops and b.get("cond") is not None and b.get("termk") in ("DoStmt",)]
-    if not conds:
-        # with && / || the do-condition is split; the DoStmt terminator block is the last of them
-        conds = [b for b in sp.blocks.values() if b["id"] in loops and b.get("termk") == "DoStmt"]
-    if not conds:
-        raise AnalysisBroken("wait loop (do-while) not found in the separate-process runner")
+    # the runner folded against scripted fork / waitpid / errno answers; the oracle is the reference wait loop below
+    class Halt(Exception):
+        pass
+    EINTR, EIO, SIGCONT, WUNTRACED, CHILD = 4, 5, 18, 2, 1234
+    SHELL, PLUGIN_, RESULT = 100, 200, 300
 
-    def names_of(p):
-        return [(prog.callee_name(sp, c) or render(sp, c)).split("::")[-1] for c in path_calls(prog, sp, p)]
-    MAC = lambda key, m: key  # placeholder
-    whole = enumerate_paths(sp, stop=lambda f, n: n["k"] == "CallExpr" and (prog.callee_name(f, n) or "") in ("_exit", "exit", "_Exit"), max_visits=2)
-    seen = {"fork_error": 0, "child": 0, "err_other": 0, "err_eintr_bound": 0, "err_eintr_retry": 0, "ok": 0}
-    for p in whole:
-        val = p.val()
-        nm = names_of(p)
-        fork_err = val.get("(cpid == syscallError)")
-        if fork_err is True:
-            seen["fork_error"] += 1
-            ok = nm.count("addFailure") == 1 and "PlatformSpecificWaitPid" not in nm and p.end == "return"
-            run.ob("R2", "fork failure: one failure, no wait", sp.site, ok, witness=nm)
-            continue
-        child = [v for k, v in val.items() if k in ("cpid", "(0 == cpid)", "(cpid == 0)")]
-        is_child = val.get("cpid") is False or val.get("(0 == cpid)") is True or val.get("(cpid == 0)") is True
-        if is_child:
-            seen["child"] += 1
-            ex = [c for c in path_calls(prog, sp, p) if (prog.callee_name(sp, c) or "") in ("_exit", "exit", "_Exit")]
-            ini = {k: render(sp, v) for k, v in local_inits(sp).items()}
-            ok = p.end == "stop" and len(ex) == 1 and nm.count("runOneTestInCurrentProcess") == 1 and nm.index("runOneTestInCurrentProcess") < nm.index(prog.callee_name(sp, ex[0]))
-            arg = render(sp, sp.args(ex[0])[0], keep_explicit_casts=False) if ex else None
-            okarg = arg == "(initialFailureCount < result->getFailureCount())" and ini.get("initialFailureCount") == "result->getFailureCount()"
-            run.ob("R3", "child: runs the test in-process and leaves only through _exit", sp.site, ok, witness={"calls": nm, "end": p.end},
-                   what="" if ok else "the child can return into the parent's test loop (tests would run twice)")
-            run.ob("R3", "child: exit status is (failures before < failures after)", sp.site, okarg, witness={"_exit": arg, "initialFailureCount": ini.get("initialFailureCount")},
-                   what="" if okarg else "failures recorded directly on the result (plugin actions) would not reach the parent")
-            args = [render(sp, c) for c in path_calls(prog, sp, p) if (prog.callee_name(sp, c) or "").endswith("runOneTestInCurrentProcess")]
-            run.ob("R3", "child: runs this test with the given plugin chain and result", sp.site, args == ["%s->runOneTestInCurrentProcess(%s, *%s)" % tuple(q["name"] for q in sp.params)], witness=args)
-            continue
-    # per-iteration analysis of the loop body
-    body_entries = set()
-    for b in sp.blocks.values():
-        if b["id"] in loops:
-            for pr in sp.preds.get(b["id"], []):
-                if pr not in loops:
-                    body_entries.add(b["id"])
-    if len(body_entries) != 1:
-        raise AnalysisBroken("wait loop entry not unique (%s)" % sorted(body_entries))
-    entry = list(body_entries)[0]
-    its = enumerate_paths(sp, start_block=entry, end_blocks={entry}, max_visits=1)
-    for p in its:
-        val = p.val()
-        nm = names_of(p)
-        err = val.get("(syscallError == w)")
-        if err is None:
-            err = val.get("(w == syscallError)")
-        eintr = [v for k, v in val.items() if "errno" in k or "__errno_location" in k]
-        bound = [(k, v) for k, v in val.items() if "amountOfRetries" in k]
-        incs = [e for e in p.trace if isinstance(e, int) and sp.nodes[e]["k"] == "UnaryOperator" and sp.nodes[e].get("op") == "++" and "amountOfRetries" in render(sp, sp.nodes[e])]
-        desc = short(p.describe(sp), 120)
-        why = []
-        if nm.count("PlatformSpecificWaitPid") != 1:
-            why.append("waitpid called %d times per iteration" % nm.count("PlatformSpecificWaitPid"))
-        if err is True:
-            if "SetTestFailureByStatusCode" in nm or "kill" in nm:
-                why.append("the status word is decoded although waitpid failed (a stale status would be recorded again)")
-            if eintr == [True]:
-                over = [v for k, v in bound]
-                if over == [True]:
-                    seen["err_eintr_bound"] += 1
-                    if nm.count("addFailure") != 1 or p.end != "return":
-                        why.append("EINTR past the retry bound must report one failure and return")
-                elif over == [False]:
-                    seen["err_eintr_retry"] += 1
-                    if nm.count("addFailure") != 0 or len(incs) != 1 or p.end != "endblock":
-                        why.append("EINTR below the bound must only count the retry and wait again (failures=%d, increments=%d, end=%s)" % (nm.count("addFailure"), len(incs), p.end))
+    def fold_runner(fork_result, events, failure_counts=(3, 3)):
+        """events: list of ("ok", status) | ("err", errno); the last one repeats for ever. Returns the observation log."""
+        log = []
+        state = {"i": 0, "fc": 0}
+        holder = {}
+
+        def waitpid(pid, ref, opts):
+            e = events[min(state["i"], len(events) - 1)]
+            state["i"] += 1
+            log.append(("waitpid", pid, opts))
+            if state["i"] > 200:
+                raise Halt("more than 200 waits")
+            if e[0] == "ok":
+                if isinstance(ref, tuple) and ref[0] == "ref":
+                    holder["ev"].env[ref[1]] = e[1]
                 else:
-                    why.append("EINTR path does not compare the retry counter with its bound")
-            elif eintr == [False]:
-                seen["err_other"] += 1
-                if nm.count("addFailure") != 1 or p.end != "return":
-                    why.append("a failing waitpid must report one failure and return")
-            else:
-                why.append("error path does not distinguish EINTR")
-        elif err is False:
-            seen["ok"] += 1
-            if nm.count("SetTestFailureByStatusCode") != 1:
-                why.append("status decoded %d times after a successful wait" % nm.count("SetTestFailureByStatusCode"))
-            else:
-                a = [render(sp, c) for c in path_calls(prog, sp, p) if (prog.callee_name(sp, c) or "") == "SetTestFailureByStatusCode"]
-                if a != ["SetTestFailureByStatusCode(%s, %s, status)" % (sp.params[0]["name"], sp.params[2]["name"])]:
-                    why.append("decoder called as %s" % a)
-            if incs:
-                why.append("retry counter changes on a successful wait")
-        else:
-            why.append("iteration does not test the waitpid result against the error value")
-        run.ob("R2", "wait iteration [%s]" % desc, sp.site, not why, witness={"calls": nm, "end": p.end}, what="; ".join(why))
-    for k in ("fork_error", "child", "err_other", "err_eintr_bound", "err_eintr_retry", "ok"):
-        if seen[k] == 0:
-            run.ob("R2", "case %s is handled" % k, sp.site, False, what="no path of the runner handles the %s case" % k)
-    # kill(SIGCONT) iff stopped, loop continues until exited or signalled: fold the loop condition and the kill guard over the status lattice
-    wp = [render(sp, c) for c in sp.calls() if (prog.callee_name(sp, c) or "") == "PlatformSpecificWaitPid"]
-    run.ob("R2", "waitpid waits for this child, also for stops", sp.site, wp == ["PlatformSpecificWaitPid(cpid, &status, 2)"] or wp == ["PlatformSpecificWaitPid(cpid, &status, WUNTRACED)"], witness=wp)
-    kills = [c for c in sp.calls() if (prog.callee_name(sp, c) or "") == "kill"]
-    okk = len(kills) == 1
-    if okk:
-        a = [render(sp, x) for x in sp.args(kills[0])]
-        okk = a[0] in ("w", "cpid") and const_value(sp, sp.args(kills[0])[1]) == 18
-        pos = sp.where_enclosing(kills[0])
-        facts = sp.edge_conditions(pos)
-        # the guarding condition folded over statuses: true exactly for stopped statuses
-        guard = [c for c, pol, b in facts if "status" in render(sp, c) and pol]
-        okg = bool(guard)
-        if okg:
-            for s in statuses:
-                ev = Evaluator(prog, sp, env={"status": s})
-                try:
-                    v = ev.ev(guard[-1])
-                except Unknown:
-                    v = None
-                if v is None or bool(v) != (posix_decode(s) == "stopped"):
-                    okg = False
-                    break
-        okk = okk and okg
-    run.ob("R2", "a stopped child (and only a stopped child) is continued with SIGCONT", sp.site, okk, witness=[render(sp, k) for k in kills])
-    dcond = None
-    for n in sp.walk():
-        if n["k"] == "DoStmt":
-            dcond = sp.node(n.get("cond"))
-    okl = dcond is not None
-    if okl:
-        for s in statuses:
-            for werr in (0, 1):
-                ev = Evaluator(prog, sp, env={"status": s, "w": -1 if werr else 1234, "syscallError": -1})
-                try:
-                    v = ev.ev(dcond)
-                except Unknown as u:
-                    v = None
-                want = 1 if werr else (0 if posix_decode(s) in ("exit0", "exit", "signal") else 1)
-                if v is None or int(bool(v)) != want:
-                    okl = False
-                    break
-            if not okl:
-                break
-    run.ob("R2", "the loop repeats exactly while waitpid failed or the child has neither exited nor been signalled (folded over all statuses)", sp.site, okl, witness=render(sp, dcond) if dcond else None)
-    bounds = [n for n in sp.walk() if n["k"] == "BinaryOperator" and n.get("op") in (">", ">=", "<", "<=") and "amountOfRetries" in render(sp, n)]
-    okb = len(bounds) == 1 and const_value(sp, sp.node(bounds[0]["rhs"])) is not None
-    run.ob("R2", "the retry bound is a constant", sp.site, okb, witness=[render(sp, b) for b in bounds])
+                    raise Unknown("status argument of waitpid is not the address of a local")
+                return pid if pid == CHILD else CHILD
+            holder["ev"].env["ERRNO[0]"] = e[1]
+            return -1
+
+        def fcount(*a_):
+            v = failure_counts[min(state["fc"], len(failure_counts) - 1)]
+            state["fc"] += 1
+            return v
+
+        def leave(code):
+            log.append(("_exit", code))
+            raise Halt("_exit")
+        ev = Evaluator(prog, sp, env={sp.params[0]["name"]: SHELL, sp.params[1]["name"]: PLUGIN_, sp.params[2]["name"]: RESULT, "ERRNO[0]": 0}, calls={
+            "PlatformSpecificFork": lambda: (log.append(("fork",)), fork_result)[1], "PlatformSpecificWaitPid": waitpid,
+            "__errno_location": lambda: ("ptr", "ERRNO", 0), "TestResult::addFailure": lambda *a_: (log.append(("failure",)), 0)[1],
+            "TestResult::getFailureCount": fcount, "kill": lambda pid, sig: (log.append(("kill", pid, sig)), 0)[1],
+            "UtestShell::runOneTestInCurrentProcess": lambda *a_: (log.append(("run", a_[0], a_[1])), 0)[1], "_exit": leave, "exit": leave, "_Exit": leave})
+        ev.pass_object = True
+        holder["ev"] = ev
+        try:
+            end, _ = ev.run_blocks(sp.entry, max_steps=20000)
+            log.append(("end", "return" if end == sp.exit else end))
+        except Halt as h:
+            log.append(("end", str(h)))
+        return log
+
+    def reference(events):
+        """what the parent must do for a scripted sequence of wait results (bound on EINTR retries left open)"""
+        out = []
+        i = 0
+        while True:
+            e = events[min(i, len(events) - 1)]
+            i += 1
+            out.append("wait")
+            if e[0] == "err":
+                if e[1] == EINTR:
+                    if i > 150:
+                        return out, "unbounded"
+                    continue
+                out.append("failure")
+                return out, "return"
+            kind = posix_decode(e[1])
+            if kind in ("exit", "signal", "stopped"):
+                out.append("failure")
+            if kind == "stopped":
+                out.append("cont")
+            if kind in ("exit0", "exit", "signal"):
+                return out, "return"
+
+    def observed(log):
+        out = []
+        for x in log:
+            if x[0] == "waitpid":
+                out.append("wait")
+            elif x[0] == "failure":
+                out.append("failure")
+            elif x[0] == "kill":
+                out.append("cont")
+        return out
+    seen = 0
+    try:
+        log = fold_runner(-1, [("ok", 0)])
+        ok = [x[0] for x in log] == ["fork", "failure", "end"] and log[-1] == ("end", "return")
+        run.ob("R2", "a failing fork: one failure, no wait, the runner returns", sp.site, ok, witness=[list(map(str, x)) for x in log])
+        seen += 1
+        STOP, EXIT0, EXIT3, SIG9, SIG11C = (19 << 8) | 0x7f, 0, 3 << 8, 9, 11 | 0x80
+        scripts = [[("ok", EXIT0)], [("ok", EXIT3)], [("ok", SIG9)], [("ok", SIG11C)], [("ok", STOP), ("ok", EXIT0)], [("ok", STOP), ("ok", STOP), ("ok", SIG9)],
+                   [("err", EINTR), ("ok", EXIT0)], [("err", EINTR), ("err", EINTR), ("ok", EXIT3)], [("err", EIO)], [("err", EINTR), ("err", EIO)],
+                   [("ok", STOP), ("err", EINTR), ("ok", SIG9)], [("ok", 0xffff), ("ok", EXIT0)], [("err", EINTR), ("ok", STOP), ("err", EIO)]]
+        for sc in scripts:
+            log = fold_runner(CHILD, sc)
+            want, wend = reference(sc)
+            got = observed(log)
+            why = ""
+            if got != want or log[-1] != ("end", "return"):
+                why = "the runner does %s and ends with %s; expected %s and a return" % (got, log[-1][1], want)
+            elif any(x[0] == "waitpid" and (x[1] != CHILD or x[2] != WUNTRACED) for x in log):
+                why = "waitpid is not called for this child with WUNTRACED: %s" % [x for x in log if x[0] == "waitpid"][:1]
+            elif any(x[0] == "kill" and x[1:] != (CHILD, SIGCONT) for x in log):
+                why = "the stopped child is not continued with kill(child, SIGCONT): %s" % [x for x in log if x[0] == "kill"][:1]
+            run.ob("R2", "parent folded against wait results %s" % [("%s:%s" % (k, ("0x%x" % v) if k == "ok" else {EINTR: "EINTR", EIO: "EIO"}[v])) for k, v in sc], sp.site, not why, witness=got, what=why)
+            seen += 1
+        log = fold_runner(CHILD, [("err", EINTR)])
+        waits = len([x for x in log if x[0] == "waitpid"])
+        ok = log[-1] == ("end", "return") and [x[0] for x in log if x[0] in ("failure", "kill")] == ["failure"] and 2 <= waits <= 150
+        run.ob("R2", "EINTR for ever: the runner gives up after a bounded number of retries with exactly one failure", sp.site, ok, witness={"waits": waits, "end": log[-1][1]},
+               what="" if ok else "waitpid interrupted for ever: %d waits, ends with %s" % (waits, log[-1][1]))
+        seen += 1
+        # the child
+        for counts, code in (((3, 3), 0), ((3, 5), 1), ((0, 1), 1)):
+            log = fold_runner(0, [("ok", 0)], failure_counts=counts)
+            kinds = [x[0] for x in log]
+            ok = kinds == ["fork", "run", "_exit", "end"] and log[-1] == ("end", "_exit")
+            run.ob("R3", "child (failures %d -> %d): runs the test in-process and leaves only through _exit" % counts, sp.site, ok, witness=[list(map(str, x)) for x in log],
+                   what="" if ok else "the child can return into the parent's test loop (tests would run twice), or waits/reports like the parent")
+            if ok:
+                run.ob("R3", "child (failures %d -> %d): runs this test with the given plugin chain; exit status is (failures before < failures after)" % counts, sp.site,
+                       log[1][1:] == (SHELL, PLUGIN_) and log[2] == ("_exit", code), witness=[list(map(str, x)) for x in log[1:3]],
+                       what="" if log[2] == ("_exit", code) else "failures recorded directly on the result (plugin actions) would not reach the parent")
+    except Unknown as u:
+        run.broke("C11.R2: the separate-process runner cannot be folded: %s" % u)
 
     # ---------------- R4 ----------------------------------------------------
     ro = prog.fn("UtestShell::runOneTest")
     run.analysed(ro)
-    for p in enumerate_paths(ro):
-        sepv = p.val().get("isRunInSeperateProcess()")
-        cs = [render(ro, c) for c in path_calls(prog, ro, p) if (prog.callee_name(ro, c) or "") == "PlatformSpecificSetJmp"]
-        want = "PlatformSpecificSetJmp(%s, &runInfo)" % ("helperDoRunOneTestSeperateProcess" if sepv else "helperDoRunOneTestInCurrentProcess")
-        run.ob("R4", "runOneTest [%s] enters the %s runner under SetJmp" % (p.describe(ro), "separate-process" if sepv else "in-process"), ro.site, sepv is not None and cs == [want], witness=cs)
+    for sepv in (0, 1):
+        jumps = []
+        ev = Evaluator(prog, ro, env={q["name"]: 5 for q in ro.params}, calls={"UtestShell::isRunInSeperateProcess": lambda *a_, sepv=sepv: sepv,
+                                                                                 "PlatformSpecificSetJmp": lambda fn_, data: (jumps.append(fn_), 1)[1]})
+        try:
+            ev.run_blocks(ro.entry, max_steps=300)
+        except Unknown as u:
+            run.broke("C11.R4: runOneTest cannot be folded: %s" % u)
+            continue
+        want = ("fn", "helperDoRunOneTestSeperateProcess" if sepv else "helperDoRunOneTestInCurrentProcess")
+        got = [(x[0], x[1].split("::")[-1]) if isinstance(x, tuple) else x for x in jumps]
+        run.ob("R4", "runOneTest folded [separate process = %d]: enters the %s runner under SetJmp, once" % (sepv, "separate-process" if sepv else "in-process"), ro.site, got == [want], witness=[str(x) for x in jumps])
     hs = prog.fn("helperDoRunOneTestSeperateProcess")
     cs = [render(hs, c) for c in hs.calls()]
     run.ob("R4", "the separate-process helper hands (shell, plugin, result) to the platform runner", hs.site, cs == ["PlatformSpecificRunTestInASeperateProcess(shell, plugin, result)"], witness=cs)
